@@ -252,6 +252,25 @@ EXC_KIND = {
 ERR_CODES = {1: "EValue", 2: "EType", 3: "EAttr", 4: "EIndex", 5: "EKey", 6: "EValidation", 7: "ERecursion", 8: "EUndefined"}
 
 
+class HelperGone(Exception):
+    """a module-private helper of the library (a name with a leading underscore that a surface calls directly) is no longer there:
+    renamed, inlined or moved by a refactoring.  Nothing a user relies on; the surface that needs it runs no comparison (counted as
+    outside the model's domain, named in the evidence) and the public entry points keep covering the behaviour."""
+
+
+def helper(path):
+    """'package.module:attr.sub' -> the object, or HelperGone"""
+    import importlib
+    mod, _, attrs = path.partition(":")
+    try:
+        obj = importlib.import_module(mod)
+        for a in attrs.split("."):
+            obj = getattr(obj, a)
+        return obj
+    except Exception:   # noqa
+        raise HelperGone(path)
+
+
 def impl_call(fn, *a, limit=20.0, cpu=False, **kw):
     """Run the implementation; exceptions become ('EXC', kind, class name)."""
     try:
@@ -563,7 +582,17 @@ def run_shard(pmod, tier, seed, shard, nshards, budget_s):
                 st.bump("surface_undefined:" + surf.name)
                 st.bump("foreign-function")
                 continue
-            i = surf.impl(x)
+            try:
+                i = surf.impl(x)
+            except HelperGone as e:
+                st.evaluations += 1
+                st.by_surface[surf.name] = st.by_surface.get(surf.name, 0) + 1
+                st.undefined += 1
+                st.bump("surface_undefined:" + surf.name)
+                st.bump("private-helper-gone")
+                note(pmod.ID, f"private helper {e} behind the surface {surf.name!r} is no longer there (refactored away?): that surface ran "
+                              "no comparison; the public entry points keep covering the behaviour")
+                continue
             m = surf.model(rn, x)
             st.evaluations += 1
             st.by_surface[surf.name] = st.by_surface.get(surf.name, 0) + 1
